@@ -93,3 +93,61 @@ def search_range_bounds(fn, shifted):
         got[op] = p
     return got, "; ".join(dict.fromkeys(why))
 
+
+
+def _nonneg(fn, t):
+    """The term cannot be negative: a non-negative literal or a widening of an unsigned parameter / field."""
+    t0 = t
+    while t0[0] == "q":
+        t0 = t0[1]
+    if t0[0] == "const":
+        return isinstance(t0[1], int) and not isinstance(t0[1], bool) and t0[1] >= 0
+    if t0[0] == "cast":
+        inner = strip(t0[1])
+        if inner[0] == "param":
+            for i in range(1, fn.argc + 1):
+                if fn.locals[i].get("n") == inner[1] or fn.param_names()[i - 1] == inner[1]:
+                    return fn.locals[i]["t"].lstrip("&").strip().startswith("u")
+    return False
+
+
+def floor_div_form(fn):
+    """(x, y) when `fn` returns floor(x / y) for y > 0, however written: `let d = x / y; if x % y < 0 { d - 1 } else { d }`,
+    or `x.div_euclid(y)` with y a widened unsigned value (for a positive divisor the Euclidean quotient is the floor).
+    Otherwise (None, why)."""
+    pv = prov_of(fn)
+    rets = [bi for bi, bb in enumerate(fn.blocks) if bb["t"]["k"] == "ret" and not bb["c"]]
+    if len(rets) != 1:
+        return None, "%d return blocks" % len(rets)
+    r = strip(pv.local(0, rets[0], len(fn.blocks[rets[0]]["s"])))
+    if is_call(r, "div_euclid") and len(r[2]) == 2:
+        x, y = r[2]
+        if not _nonneg(fn, y):
+            return None, "div_euclid by %s, which is not known to be positive" % show(y)
+        return (strip(x), strip(y)), ""
+    ats = [a for a in A.atoms(fn)]
+    if len(ats) != 1 or ats[0].cond() is None:
+        return None, "%d branch(es)" % len(ats)
+    from analysis.prov import prov_assuming
+    at = ats[0]
+    op, a, b = at.cond()
+    a, b = strip(a), strip(b)
+    # remainder < 0 (or 0 > remainder), possibly negated
+    if op in ("Gt", "Le"):
+        op, a, b = {"Gt": "Lt", "Le": "Ge"}[op], b, a
+    if not (op in ("Lt", "Ge") and a[0] == "bin" and a[1] == "Rem" and b[0] == "const" and b[1] == 0):
+        return None, "branches on %s" % at.describe()[:80]
+    x, y = strip(a[2]), strip(a[3])
+    out = {}
+    for truth in (True, False):
+        pa = prov_assuming(fn, [(at, truth)])
+        out[truth] = strip(pa.local(0, rets[0], len(fn.blocks[rets[0]]["s"])))
+    neg_side, pos_side = (out[True], out[False]) if op == "Lt" else (out[False], out[True])
+    div = ("bin", "Div", a[2], a[3])
+    def is_div(t):
+        t = strip(t)
+        return t[0] == "bin" and t[1] == "Div" and strip(t[2]) == x and strip(t[3]) == y
+    ok = is_div(pos_side) and neg_side[0] == "bin" and neg_side[1].startswith("Sub") and is_div(neg_side[2]) and strip(neg_side[3])[:2] == ("const", 1)
+    if not ok:
+        return None, "remainder < 0 gives %s, otherwise %s" % (show(neg_side), show(pos_side))
+    return (x, y), ""
